@@ -42,12 +42,15 @@ func c17Verify(c *core.Ctx) {
 			c.Undecided("verify decision", at(c, sign), t.Err)
 		} else {
 			cond, _ := t.InstrCond(sign)
-			b, unbound, dup := bindDeps(t, cond, matchers{
+			mVerify := matchers{
 				"noSecret": has("GetTLSSecretContent(", "#1 != nil)"),
 				"expiring": has("(time.Time).Before(", ".NotAfter", "(time.Time).Add(time.Now(), s.expiring)"),
 				"covers":   has("acme.match("),
-			})
-			if dup != "" || len(unbound) > 0 {
+			}
+			b, unbound, dup := bindDeps(t, cond, mVerify)
+			if miss := missingBound(b, mVerify); len(miss) > 0 {
+				c.Violated("verify decision", at(c, sign), fmt.Sprintf("the decision to sign does not depend on %v any more", miss))
+			} else if dup != "" || len(unbound) > 0 {
 				c.Violated("verify decision", at(c, sign), fmt.Sprintf("the decision to sign also depends on %v %s", unbound, dup))
 			} else {
 				ok, diff, _ := t.Compare(cond, b, func(v map[string]bool) bool { return v["noSecret"] || v["expiring"] || !v["covers"] }, nil)
@@ -269,12 +272,17 @@ func c17Decl(c *core.Ctx) {
 		c.Undecided("acme declaration condition", at(c, acq), "not in region")
 		return
 	}
-	b, unbound, dup := bindDeps(t, cond, matchers{
+	mDecl := matchers{
 		"track":  func(k string) bool { return strings.HasSuffix(k, "options.AcmeTrackTLSAnn") },
 		"ann":    has("strconv.ParseBool(", `"kubernetes.io/tls-acme"`, "#0"),
 		"signer": has(`strings.ToLower(annHost["cert-signer"]`, `== "acme")`),
 		"named":  has(`.SecretName != "")`),
-	})
+	}
+	b, unbound, dup := bindDeps(t, cond, mDecl)
+	if miss := missingBound(b, mDecl); len(miss) > 0 {
+		c.Violated("acme declaration condition", at(c, acq), fmt.Sprintf("the declaration does not depend on %v any more", miss))
+		return
+	}
 	if dup != "" || len(unbound) > 0 {
 		c.Violated("acme declaration condition", at(c, acq), fmt.Sprintf("also depends on %v %s", unbound, dup))
 		return
